@@ -85,6 +85,7 @@ const c10Watchdog = 15 * time.Second
 type c10Result struct {
 	Events   []c10Event `json:"events"`
 	Hang     string     `json:"hang,omitempty"`
+	Skipped  bool       `json:"skipped,omitempty"`
 	Script   string     `json:"script"`
 	Schedule [][]any    `json:"schedule"`
 }
@@ -428,6 +429,12 @@ func TestVerifC10Run(t *testing.T) {
 			results[i] = c10Result{Hang: "harness: " + err.Error()}
 			return
 		}
+		if atomic.LoadInt64(&hangs) >= 6 {
+			// every hang costs several watchdog periods: six reproduced ones are reported, the
+			// remaining schedules are skipped (marked) so that the check ends in bounded time
+			results[i] = c10Result{Schedule: s.Hist, Skipped: true}
+			return
+		}
 		slow := i%2 == 1
 		r := c10Run(script, s.Hist, slow)
 		if r.Hang != "" {
@@ -440,8 +447,9 @@ func TestVerifC10Run(t *testing.T) {
 			}
 			if n < 3 {
 				r.Hang = "UNREPRODUCED " + r.Hang
+			} else {
+				atomic.AddInt64(&hangs, 1)
 			}
-			atomic.AddInt64(&hangs, 1)
 		}
 		results[i] = r
 	})
